@@ -316,8 +316,8 @@ fn format(opt: opt::Opt) -> Result<i32> {
                 overrides.add(pattern)?;
             }
             let overrides = overrides.build()?;
-            walker_builder.overrides(overrides.clone());
-            // The walker does not apply the globs to paths given explicitly: keep them for `--respect-ignores`
+            // We apply the globs ourselves while walking: as walker overrides they would take precedence over
+            // `.styluaignore` and the hidden file filter, and they would not be applied to paths given explicitly
             custom_globs = Some(overrides);
             // We shouldn't use the default glob anymore
             false
@@ -474,11 +474,10 @@ fn format(opt: opt::Opt) -> Result<i32> {
                             }
                         }
 
-                        // If `--respect-ignores` was given and this is an explicit file path,
-                        // it has to match the globs given with `--glob` like any other file
+                        // Files have to match the globs given with `--glob` (a path given explicitly only
+                        // if `--respect-ignores` was given)
                         if let Some(custom_globs) = &custom_globs {
-                            if is_explicitly_provided(opt.as_ref(), &path)
-                                && should_respect_ignores(opt.as_ref(), &path)
+                            if should_respect_ignores(opt.as_ref(), &path)
                                 && custom_globs.matched(&path, false).is_ignore()
                             {
                                 continue;
